@@ -451,6 +451,12 @@ class UM(Mutation):
         return child
 
     def um_mutation(self, x, lb, ub):
+        if math.isinf(ub - lb):
+            # the width overflows for very wide (but finite) bounds, and
+            # random.uniform would return inf or nan; interpolate instead
+            r = random.random()
+            return lb * (1.0 - r) + ub * r
+
         return random.uniform(lb, ub)
 
 class PCX(Variator):
